@@ -3,6 +3,6 @@ CONSTANTS
   Mutant = "none"
   Atoms = {97, 47, 37, 43, 32, 63, 35, 58, 42, 123, 125, 59, 38, 61, 46, 195, 9}
   MaxLen = 4
-  MaxLenPath = 3
+  MaxLenPath = 2
 INVARIANTS ValuesAgree RoutingAgrees ResponseAgreesMC
 CHECK_DEADLOCK FALSE
